@@ -19,6 +19,9 @@ CLAIMED = {
  'C08': dict(cat='other', ref='DESIGN.md §4 C08',
    text='Zero-annotation sweep over every function of the library and the tool packages: every type assertion without comma-ok, index/slice expression, nil-map write, interface comparison, division and explicit panic gets a no-panic obligation under the path condition; every recursive call inside a call-graph cycle and every non-counting loop gets a termination obligation against the decreases measures in the contracts (depth guard of process1/process2/interpolation, file-chain depth, structural rank).',
    note='Not proved (listed in the evidence as unclaimed or assumed): termination of normalize*, yamlTranslateNode (external node graphs), Document.AllParents (parent graph), mergeListList->mergeListMatch (needs a size-additive measure), the json decoder loop; nil pointer dereferences are assumed away (API misuse); stdout/exit discipline of the mains and resource exhaustion are not decided here.'),
+ 'C09': dict(cat='other', ref='DESIGN.md §4 C09',
+   text='Determinism as a corollary of three families of obligations: (1) every range over a built-in map in the repository is either inside a function whose functional postcondition is proved for every iteration order (mergeMapMap, matchMap, validateMap, diffMapMap, intersectMapMap, requiredMap) or is a single store under an injective function of the loop key; wherever order is observable the code iterates sortedMap, whose ascending-order contract the executor uses; (2) finalizeOutput/finalizeMap are proved to be a function of their input (finF), including colliding keys; (3) no function writes a package-level variable.',
+   note='Not decided: schedules (no thread support in this family; independence of concurrent evaluations is argued from the absence of shared mutable state only); findFile is order-dependent when several files provide one layer name (excluded by the quantifier; listed as an assumed obligation); regexp, the codecs and os.Environ are assumed deterministic.'),
  'C10': dict(cat='other', ref='DESIGN.md §4 C10',
    text='Ownership obligations over process1*: the subtree returned by a reference look-up (borrowed from the stored documents) is never passed to merge as a source or destination without a copy, so a $merge cannot change the subtree it refers to, cannot create self-containing structures and cannot make the result depend on evaluation order; matchS including the placeholder rule is proved for match/matchMap.',
    note='The look-up functions (getPath, getCrossDoc, getPathFromString/List) and the dispatch (what $merge/$replace evaluate to) have no functional contracts yet - not claimed; in-place evaluation of the host map by process1 is a documented design decision (mode inplace) and is not flagged.'),
@@ -28,15 +31,24 @@ CLAIMED = {
  'C06': dict(cat='proof', ref='DESIGN.md §4 C06',
    text='One pass-through clause per evaluation stage, proved for all trees whose keys and strings do not start with a single $ (plain data and data with doubled dollars both qualify) and that are nested less deep than the recursion guard: process1* and process2* return dropF(obj) (only nulls dropped) without error, findOutputs selects nothing and returns the tree, filterOutput returns dropF(obj), validate accepts, finalizeString is exactly ReplaceAll("$$","$") and finalizeOutput applies it to every key and string value (finF).',
    note='Not proved: the composition into one end-to-end statement (unesc(dbl s) = s is a string induction the solvers do not do; it is stated in DESIGN.md as a bounded lemma and not claimed here); repeatDoc and Document.Process are not under a functional contract; height/rank are uninterpreted measures with child-smaller-than-parent axioms.'),
+ 'C12': dict(cat='other', ref='DESIGN.md §4 C12',
+   text='Document-level $repeat with a plain count is proved completely: repeatDocGenFromInt returns exactly max(n,0) documents, the j-th a fresh copy of the document data evaluated in a fresh context that binds the name to j and otherwise equals the original context, with no existing object changed (allocation frame); repeatDocGen dispatches int/map/other (other: ErrInvalidRepeat); repeatDocMap pops $repeat and leaves documents without it untouched. Nested $repeat: a non-integer count is an error, and every copy is evaluated in a clone of the context with $repeat bound to its index (site assertions at the process2 calls).',
+   note='Not proved: the cartesian product order of named counts (repeatDocGenFromMap: needs non-linear arithmetic; only the equal length of documents and contexts is proved), the order/concatenation of nested copies (needs a name for each process2 result), and that a copy equals the hand-written document (that is the definition of process2 under the bound context).'),
  'C15': dict(cat='other', ref='DESIGN.md §4 C15',
    text='The round trip is the postcondition itself: for every "$"-free, null-free target and any base, diff/diffMap/diffMapMap/diffList are proved to return nil exactly when target = base, and otherwise a layer L with not mergeErr(base, L) and mergeF(base, L) = target - the same mergeF/mergeErr that merge is proved against in C01 - outside the classes of finding F13 (kindBad: a container changing kind where the merge rules reject the override).',
    note='diffListList is under an ASSUMED contract (trusted, body not verified) that only covers list pairs that are equal or fall back to whole-list $replace; entry-level list patches (added/deleted map entries, reordering, duplicates, partial-match deletes) are not claimed - they are finding F13; reflect.DeepEqual is modelled as structural equality; main/diffDoc ($match: {}) are not under contract.'),
  'C16': dict(cat='proof', ref='DESIGN.md §4 C16',
    text='intersect/intersectMap/intersectMapMap/intersectList/intersectListList are proved to return interF(a,b) (a map keeps exactly the keys present in both, equal scalars are kept, present-in-both-but-different becomes "$required", lists keep the entries of the first that occur in the second, each once) and, as a separate clause proved through the recursion of the code itself, intersect(a,a) = a.',
    note='The left fold over the input files in main and the lossless-migrate composition with bkld (C15, whose list case is assumed) are not proved; reflect.DeepEqual is modelled as structural equality.'),
+ 'C20': dict(cat='other', ref='DESIGN.md §4 C20',
+   text='Effects obligations on WrapOrDie: syscall.Exec is called exactly once, after the loop over the arguments has finished; inside the loop every failing step (New, MergeFileLayers, CreateTemp, OutputToFile) ends in fatal, a failing FileMatch skips the argument untouched, and the only write to the argument vector is args[i] = tmp.Name(); plus the no-panic sweep obligation that the index stays inside the cloned argument slice.',
+   note='Syntactic obligations only: that the temp file holds the evaluated layers in the format of the named extension relies on the contracts of MergeFileLayers/OutputToFile (not under functional contract); os/exec, syscall.Exec, os.CreateTemp are external.'),
  'C17': dict(cat='proof', ref='DESIGN.md §4 C17',
    text='required/requiredMap/requiredList are proved to return exactly reqF(obj), the spec of the $required skeleton written from the property statement, for all trees and all map iteration orders.',
    note='Assumed: reqF is characterised by one spec axiom; list lemmas appNil/snocApp are proved by their own induction obligations in the same run; main() of bklr and the codecs are not under contract.'),
+ 'C18': dict(cat='other', ref='DESIGN.md §4 C18',
+   text='Effects obligations over the whole library: the only calls that read file content or open a root handle are p.root.Open(relPath)+io.ReadAll(fh) in loadFile, os.OpenRoot("/") in New and p.root.OpenRoot(rel) in SetRoot (any other os.Open/ReadFile/OpenRoot in any library function fails an obligation); data-flow obligations: the handle read is os.Stdin or p.root.Open(relPath), relPath = Rel(p.rootPath, Abs(path)), SetRoot opens the new root through the current one relative to the current root path and assigns root and rootPath together; cmd/bkl applies -r before the first input.',
+   note='Assumed: os.Root refuses .., absolute paths and symlinks that leave the root (external, not under contract); existence probes (os.Stat, filepath.Glob, EvalSymlinks) bypass the root by design, so independence of the *existence* of outside files is not decided by these obligations; the data-flow checks are syntactic (single-assignment patterns).'),
  'C19': dict(cat='proof', ref='DESIGN.md §4 C19',
    text='Frame obligations: Output, OutputDocuments, OutputToWriter, OutputToFile, outputDocument and Documents are declared `modifies nothing`, and the tool proves that neither they nor anything they call writes a struct field of an object that was not allocated during the call (Document.Process works on a Clone), nor mutates a tree reachable from a stored document (ownership obligations over process1*, merge*).',
    note='"Same bytes each time" then follows from determinism of evaluation (C09) - not separately proved; Assumed: Document.Clone/deepClone return unshared copies; the ownership/frame analysis is a flow-sensitive abstract interpretation written for this task (trusted).'),
